@@ -1300,8 +1300,15 @@ class Controller:
     ############################################################
     def on_hci_command(
         self, command: hci.HCI_Command
-    ) -> hci.HCI_StatusReturnParameters:
+    ) -> hci.HCI_StatusReturnParameters | None:
         logger.warning(color(f'--- Unsupported command {command}', 'red'))
+        if not isinstance(command, hci.HCI_SyncCommand):
+            # No Command Complete will be sent for this command (async command or
+            # unknown opcode): report the error with a Command Status.
+            self._send_hci_command_status(
+                hci.HCI_ErrorCode.UNKNOWN_HCI_COMMAND_ERROR, command.op_code
+            )
+            return None
         return hci.HCI_StatusReturnParameters(
             hci.HCI_ErrorCode.UNKNOWN_HCI_COMMAND_ERROR
         )
